@@ -116,7 +116,7 @@ def prepare(params, replay=False):
 
 WRAPS = ['none', 'none', 'none', 'toList', 'len', 'first', 'wherefalsefirst',
          'listexpr', 'dictexpr', 'listlist', 'selectpair', 'dictkey',
-         'dictkeylist']
+         'dictkeylist', 'setof', 'setoflist', 'dictitems', 'listset']
 GROW = [
     "$a + $a + $a + $a",
     "($a + $b) * $n",
@@ -187,6 +187,21 @@ def gen_case(seeds, params, index):
                 'l': w.choice([[1], [1, 2], [1, 2, 3], list(range(8))]),
                 'n': w.choice([20000000, 30000000]), 'Q': 10000}
     flavour = 'legacy' if index % 2 else 'default'
+    if r < 0.24:
+        # a call on the lazy sequence that cannot be resolved: producing the
+        # error must not consume the sequence either
+        N = f.choice(NS)
+        name, extra = w.choice([('noSuchMethod', [['lit', 1]]),
+                                ('toUpper', []), ('len', [['lit', 1], ['lit', 2]]),
+                                ('take', [['lit', 'x']]), ('startsWith', [['lit', 'a']]),
+                                ('select', []), ('format', [])])
+        call = {'name': name, 'method': w.random() < 0.8,
+                'args': [['var', 's']] + extra, 'kwargs': {}}
+        return {'family': 'limit', 'flavour': flavour, 'N': N, 'Q': -1,
+                'target': [name, ['pos', 0], -1],
+                'stream': f.choice([['endless'], ['finite', N + 1]]),
+                'call': call, 'wrap': 'none', 'convert_output': True,
+                'failing_call': True}
     if r < 0.45:
         return gen_lambda_result_case(w, f, flavour, index)
     targets = synth.collection_targets(flavour)
@@ -272,7 +287,16 @@ def lib_call(stream):
     raise core.HarnessError(stream)
 
 
+NESTED = ["$nest", "$nest.x", "[$nest]", "$nest.values()", "$nestl",
+          "$nestl.first()", "$nestl.where(true)", "{a => $nest}",
+          "$nestl.select($)", "$recsq.groupBy($.k, $.v)",
+          "$recsq.groupBy($.k)", "$nest.items()", "$nestl.toList()"]
+
+
 def gen_quota_case(w, f):
+    if w.random() < 0.12:
+        return {'family': 'nested_quota', 'Q': f.choice([500, 1000, 2000]),
+                'expr': w.choice(NESTED), 'N': f.choice([-1, -1, 100000])}
     a = w.choice(['a', 'ab', 'abcabcabc', 'a' * 40, u'é' * 30,
                   u'中' * 25, u'\U0001F600' * 12, 'a' * 150, 'ba' * 300])
     b = w.choice(['b', 'xyz', u'ü' * 10, 'b' * 60, 'a' * 500])
@@ -327,6 +351,23 @@ def wrap_spec(wrap, call):
         tl = ['call', m('toList')]
         return {'name': '#map', 'method': False,
                 'args': [['rulex', tl, ['lit', 1]]], 'kwargs': {}}
+    if wrap == 'setof':
+        # the collection as a MEMBER of a set (kept as a tuple by engines
+        # that do not convert tuples)
+        return {'name': 'set', 'method': False, 'args': [c], 'kwargs': {}}
+    if wrap == 'setoflist':
+        return {'name': 'set', 'method': False,
+                'args': [['call', m('toList')]], 'kwargs': {}}
+    if wrap == 'dictitems':
+        d = ['call', {'name': '#map', 'method': False,
+                      'args': [['rule', 'a', ['call', m('toList')]]],
+                      'kwargs': {}}]
+        return {'name': 'items', 'method': True, 'args': [d], 'kwargs': {}}
+    if wrap == 'listset':
+        inner = ['call', {'name': 'set', 'method': False,
+                          'args': [['call', m('toList')]], 'kwargs': {}}]
+        return {'name': '#list', 'method': False,
+                'args': [['lit', 1], inner], 'kwargs': {}}
     if wrap == 'selectpair':
         return m('select', ['lam', '[$, [$, $]]'])
     raise core.HarnessError(wrap)
@@ -387,6 +428,8 @@ def execute(case, stats):
         return exec_limit(case, stats)
     if fam == 'quota':
         return exec_quota(case, stats)
+    if fam == 'nested_quota':
+        return exec_nested_quota(case, stats)
     return exec_prealloc(case, stats)
 
 
@@ -608,6 +651,71 @@ def exec_quota(case, stats):
     return viols
 
 
+def nested_sizes(v, depth=0):
+    """(size, type) of every measured value strictly inside v"""
+    from yaql.language import utils
+    out = []
+    if depth > 8:
+        return out
+    if isinstance(v, (list, tuple, set, frozenset)):
+        for x in v:
+            if isinstance(x, MEASURED) or isinstance(x, utils.FrozenDict):
+                out.append((sys.getsizeof(x, 0), type(x).__name__))
+            out.extend(nested_sizes(x, depth + 1))
+    elif isinstance(v, (dict, utils.FrozenDict)):
+        for x in list(v.keys()) + list(v.values()):
+            if isinstance(x, MEASURED) or isinstance(x, utils.FrozenDict):
+                out.append((sys.getsizeof(x, 0), type(x).__name__))
+            out.extend(nested_sizes(x, depth + 1))
+    return out
+
+
+def exec_nested_quota(case, stats):
+    """Host data whose NESTED members are several times over the quota while
+    the outer container is small; output conversion on.  The result is walked
+    by the finalizer: no member that large may come back.  Slack: a converted
+    list may be up to ~12% + 56 bytes larger than the tuple that was
+    measured, so only members over 2 * Q count."""
+    from yaql.language import utils
+    Q = case['Q']
+    opts = {'yaql.memoryQuota': Q}
+    if case.get('N', -1) >= 0:
+        opts['yaql.limitIterators'] = case['N']
+    engine = synth.chain_engine('default').copy(opts)
+    key = ('nq', case['expr'], Q, case.get('N', -1))
+    st = _state.setdefault('qst', {}).get(key)
+    if st is None:
+        st = _state['qst'][key] = engine(case['expr'])
+    big = tuple(range(Q // 2))             # ~4 Q bytes
+    bigs = 'z' * (4 * Q)
+    ctx = synth.chain_contexts('default').create_child_context()
+    ctx['nest'] = utils.FrozenDict({'x': big, 'y': 1, 's': bigs})
+    ctx['nestl'] = ((1, 2), big, ('a', bigs))
+    ctx['recsq'] = tuple(utils.FrozenDict({'k': i % 2, 'v': bigs[:Q // 20]})
+                         for i in range(120))
+    _mon['Q'] = -1
+    kind, val = classify(lambda: st.evaluate(context=ctx))
+    viols = []
+    detail = {'expr': case['expr'], 'Q': Q, 'outcome': kind,
+              'error': (type(val).__name__ + ': ' + str(val)[:160])
+              if isinstance(val, BaseException) else None}
+    if kind == 'ok':
+        over = [x for x in nested_sizes(val) if x[0] > 2 * Q + 100]
+        if isinstance(val, MEASURED) and sys.getsizeof(val, 0) > 2 * Q + 100:
+            over.append((sys.getsizeof(val, 0), type(val).__name__))
+        if over:
+            detail['over_quota_members'] = over[:4]
+            viols.append({'key': 'C08:nested-result-member-over-quota',
+                          'clause': 'no value whose own size exceeds Q is '
+                                    'returned (members of the result '
+                                    'included)', 'detail': detail})
+    stats.inc('evaluations')
+    stats.inc('nested_quota_outcome.' + kind)
+    stats.inc('fault.nested_host_value_over_quota')
+    stats.add('nontrivial', core.h64('nq', case['expr'], Q, kind))
+    return viols
+
+
 def exec_prealloc(case, stats):
     import tracemalloc
     engine = quota_engine(case['Q'], -1)
@@ -706,6 +814,7 @@ def coverage(stats, params):
         'distinct_payloads_run': stats.distinct('payloads_run'),
         'outcomes': stats.counters('outcome.'),
         'quota_outcomes': stats.counters('quota_outcome.'),
+        'nested_quota_outcomes': stats.counters('nested_quota_outcome.'),
         'status': stats.counters('status.'),
         'indeterminate': stats.counters('indeterminate.'),
         'simulated_time_steps': stats.counters('steps.'),
